@@ -294,7 +294,26 @@ def replay_subject(prop, result, fresh, wd, info):
     return False
 
 
-HOOKS = {'subject': replay_subject, 'threadpool': replay_threadpool, 'thread': replay_thread, 'localeinfo': replay_localeinfo, 'resource': replay_resource, 'ringbuffer': replay_ringbuffer, 'array': replay_array, 'arrayb': replay_array}
+def replay_router(prop, result, fresh, wd, info):
+    exe = os.path.join(wd, 'rt_replay')
+    srcs = [os.path.join(REPO, 'src', 'observer', 'routing', f) for f in ('SubjectRouter.cpp', 'RoutingLevelView.cpp', 'RoutingKey.cpp', 'RoutingKeyBuilder.cpp')]
+    cmd = ['g++', '-std=c++20', '-g', '-O0', '-fsanitize=address', '-I', os.path.join(REPO, 'include'), os.path.join(ROOT, 'replay', 'rt_replay.cpp')] + srcs + ['-o', exe]
+    rc, out = _run(cmd, timeout=900)
+    if rc != 0:
+        info['native'] = 'replay driver does not build against the current tree: ' + out[-1500:]
+        return False
+    env = dict(os.environ, ASAN_OPTIONS='detect_leaks=0')
+    for mode in ('notify', 'shrink'):
+        rc, o = _run(['timeout', '60', exe, mode], timeout=90, env=env)
+        if rc != 0 and ('CONFIRMED' in o or 'ERROR: AddressSanitizer' in o):
+            info['native'] = {'input': mode + ': six subscription keys, nine patterns, arguments int / struct / std::string passed as temporaries', 'outcome': 'CONFIRMED',
+                              'output': '\n'.join([l for l in o.split('\n') if 'CONFIRMED' in l or 'ERROR' in l][:6])}
+            return True
+    info['native'] = {'outcome': 'NOT-REPRODUCED', 'tried': 'six subscription keys x nine patterns x three by-value signatures; shrink/exists/depth before and after'}
+    return False
+
+
+HOOKS = {'router': replay_router, 'subject': replay_subject, 'threadpool': replay_threadpool, 'thread': replay_thread, 'localeinfo': replay_localeinfo, 'resource': replay_resource, 'ringbuffer': replay_ringbuffer, 'array': replay_array, 'arrayb': replay_array}
 
 
 def make_replay(prop, result, fresh, wd, tier):
